@@ -962,12 +962,19 @@ class ExpressionTransform:
         )
 
     def visit_Translate(self, node, target):
-        if node.msgid is not None:
+        # A dropped attribute stays dropped, and (as for an element)
+        # without an explicit message id an empty value is not translated.
+        if node.msgid:
             msgid = ast.Constant(node.msgid)
+            test = template("T is not None", T=load(target.id), mode="eval")
         else:
             msgid = target
-        return self._translate(node.node, target) + \
-            emit_translate(target, msgid, default=target)
+            test = load(target.id)
+        return self._translate(node.node, target) + [ast.If(
+            test=test,
+            body=emit_translate(target, msgid, default=target),
+            orelse=[],
+        )]
 
     def visit_Static(self, node, target):
         return [ast.Assign(targets=[target], value=node)]
